@@ -5,8 +5,7 @@
  *                     parsec_gather_collective_pattern, the three child predicates, the
  *                     forwarded mask, remote_dep_complete_and_cleanup, remote_deps_free
  *   remote_dep.h      remote_dep_rank_to_bit / remote_dep_bit_to_rank
- *   remote_dep_mpi.c  remote_dep_dequeue_send (COMM_MT path) -> remote_dep_nothread_send ->
- *                     remote_dep_mpi_pack_dep;  receiver: remote_dep_get_datatypes +
+ *   remote_dep_mpi.c  remote_dep_mpi_pack_dep;  receiver: remote_dep_get_datatypes +
  *                     remote_dep_mpi_retrieve_datatype (incoming_mask, size attribution),
  *                     remote_dep_release_incoming (local release + propagation)
  *
@@ -19,8 +18,21 @@
  * rank is processed after the only ranks that can send to it: the simulation order is exact.
  */
 #include "vp_harness.h"
+/* remote_dep_mpi_pack_dep() recovers its remote_deps from an integer data key stored in a union
+ * member of the send command.  CBMC's dereferencing cannot follow a pointer through that integer
+ * (measured: one send = 64 s / 5.4 GB, no verdict for the relay), so spec.py rewrites exactly that
+ * cast (regex patch on the overlay copy) into VP_KEY2DEPS(key): under CBMC it ASSERTS that the key
+ * equals the address of the sender's remote_deps and returns the typed pointer; natively it is the
+ * original cast. */
+struct parsec_remote_deps_s;
+static struct parsec_remote_deps_s *vp_key2deps(uintptr_t key);
+#define VP_KEY2DEPS(k) vp_key2deps((uintptr_t)(k))
 #include "parsec/remote_dep.c"
+/* the activation send path remote_dep_dequeue_send -> (command queue | COMM_MT) ->
+ * remote_dep_nothread_send is replaced by the harness function of the same name below */
+#define remote_dep_dequeue_send vp_real_remote_dep_dequeue_send
 #include "parsec/remote_dep_mpi.c"
+#undef remote_dep_dequeue_send
 
 #ifndef NR
 #define NR 3
@@ -80,9 +92,19 @@ static parsec_lifo_t rd_origin;
 static parsec_remote_deps_t RD;
 static uint32_t rbits[NOUT][1], fwbits[1];
 static parsec_data_copy_t copies[NOUT]; static char payload[NOUT][8];
-static char dtt_obj[NOUT];             /* one opaque datatype handle per output */
+/* MPI datatype handles are addresses of opaque library objects; defined here so that handle
+ * comparisons are decidable (no MPI library is linked) */
+struct ompi_predefined_datatype_t { char opaque[8]; };
+struct ompi_predefined_datatype_t ompi_mpi_int8_t, ompi_mpi_datatype_null, ompi_mpi_packed;
+static struct ompi_predefined_datatype_t dtt_obj[NOUT];   /* one datatype handle per output */
 #define DTT(k) ((parsec_datatype_t)&dtt_obj[k])
+/* parsec_fatal(): reaching it is outside every scenario of this harness */
+static void vp_fatal_exit(int status) { (void)status; VASSUME(0); }
+void (*parsec_weaksym_exit)(int status) = vp_fatal_exit;
+int parsec_debug_coredump_on_fatal = 0, parsec_debug_history_on_fatal = 0, parsec_debug_colorize = 0, parsec_debug_rank = 0;
+const char *parsec_hostname = "vp";
 parsec_comm_engine_t parsec_ce;
+static const parsec_dep_data_description_t zero_desc; static const remote_dep_wire_activate_t zero_msg;
 /* class descriptor of parsec_list_item_t in the state parsec_class_initialize() leaves it in
  * (parsec/class/parsec_list.c is not part of the query): constructor makes the item a singleton */
 static void vp_list_item_construct(parsec_object_t *o)
@@ -111,11 +133,10 @@ static int stub_pack(parsec_comm_engine_t *ce, void *inbuf, int incount, parsec_
     for (int k = 0; k < NOUT; k++) if (inbuf == (void *)payload[k]) wire_eager |= 1u << k;
     *position += sz; return 0;
 }
-static int stub_send_am(parsec_comm_engine_t *ce, parsec_ce_tag_t tag, int peer, void *addr, size_t size)
+static void deliver(int peer, char *addr)
 {   /* delivers the activation to rank `peer`: the header as packed, the data_sizes[] words that
        remote_dep_mpi_pack_dep wrote behind it, and the set of eagerly packed payloads */
-    (void)ce; (void)tag; (void)size;
-    if (peer < 0 || peer >= NR) { bad_peer = 1; wire_eager = 0; return 0; }
+    if (peer < 0 || peer >= NR) { bad_peer = 1; wire_eager = 0; return; }
     int rp = rel_of(peer);
     if (rp <= rel_of(cur)) bad_peer = 1;
     const uint32_t *ds = (const uint32_t *)((char *)addr + dep_count);
@@ -124,7 +145,36 @@ static int stub_send_am(parsec_comm_engine_t *ce, parsec_ce_tag_t tag, int peer,
     rx_nsz[rp] = ds[0];
     for (int i = 0; i < NOUT; i++) rx_sz[rp][i] = ds[1 + i];
     rx_eager[rp] = wire_eager; wire_eager = 0;
-    return 0;
+}
+static struct parsec_remote_deps_s *vp_key2deps(uintptr_t key)
+{
+#ifdef VP_NATIVE
+    return (parsec_remote_deps_t *)key;
+#else
+    VASSERTM(key == (uintptr_t)&RD, "the data key of the send command is the address of the sender's remote_deps");
+    return &RD;
+#endif
+}
+/* what remote_dep_dequeue_send + remote_dep_nothread_send do for one activation when aggregation
+ * is off (default): build the DEP_ACTIVATE command, pack it with the REAL remote_dep_mpi_pack_dep
+ * into an empty DEP_SHORT_BUFFER_SIZE buffer, send it as an active message, and complete one
+ * pending action of the deps */
+static int n_sends; static const dep_cmd_item_t zero_item;
+int remote_dep_dequeue_send(parsec_execution_stream_t *e, int rank, parsec_remote_deps_t *deps)
+{
+    (void)e; dep_cmd_item_t item;
+    uint32_t packed_words[(DEP_SHORT_BUFFER_SIZE + 3) / 4];   /* word-typed: pack_dep writes uint32 sizes into it */
+    char *packed_buffer = (char *)packed_words;
+    int position = 0;
+    item = zero_item;
+    item.action = DEP_ACTIVATE; item.priority = deps->max_priority;
+    item.cmd.activate.peer = rank; item.cmd.activate.task.source_deps = (remote_dep_datakey_t)deps;
+    n_sends++;
+    int rc = remote_dep_mpi_pack_dep(rank, &item, packed_buffer, DEP_SHORT_BUFFER_SIZE, &position);
+    VASSERTM(rc == 0, "an activation fits an empty short buffer");
+    deliver(rank, packed_buffer);
+    remote_dep_complete_and_cleanup(&deps, 1);
+    return 1;
 }
 static int stub_oms(parsec_taskpool_t *t, int dst, parsec_remote_deps_t *rd) { (void)t; (void)dst; (void)rd; return 1; }
 static int stub_omp(parsec_taskpool_t *t, int dst, char *b, int *p, int l) { (void)t; (void)dst; (void)b; (void)p; (void)l; return 0; }
@@ -141,7 +191,7 @@ static void stub_iterate_successors(parsec_execution_stream_t *e, const parsec_t
         if (!(action_mask & (1u << dep[k].dep_index))) continue;
         for (int r = 0; r < NR; r++) {
             if (!((dest[k] >> r) & 1)) continue;
-            parsec_dep_data_description_t d; memset(&d, 0, sizeof(d));
+            parsec_dep_data_description_t d = zero_desc;
             if (PARSEC_ITERATE_STOP == ontask(e, &succ_task, t, &dep[k], &d, root, r, 0, NULL, 0, arg)) return;
         }
     }
@@ -175,7 +225,7 @@ static void fresh_deps(void)           /* state of an item returned by remote_de
     for (int k = 0; k < NOUT; k++) {
         rbits[k][0] = 0; d->output[k].parent = d; d->output[k].rank_bits = rbits[k];
         d->output[k].deps_mask = 0; d->output[k].count_bits = 0; d->output[k].priority = 0xffffffff;
-        memset(&d->output[k].data, 0, sizeof(d->output[k].data));
+        d->output[k].data = zero_desc;   /* typed assignment: a memset would turn RD into a byte blob */
     }
     d->max_priority = 0xffffffff; d->root = -1; d->pending_ack = 0; d->incoming_mask = 0; d->outgoing_mask = 0;
 }
@@ -244,7 +294,7 @@ static int kf_class(void)
 int main(void)
 {
     /* ---- static world */
-    ctx.nb_nodes = NR; ctx.remote_dep_fw_mask_sizeof = sizeof(uint32_t); ctx.flags = PARSEC_CONTEXT_FLAG_COMM_MT;
+    ctx.nb_nodes = NR; ctx.remote_dep_fw_mask_sizeof = sizeof(uint32_t); 
     vp.parsec_context = &ctx; es.virtual_process = &vp; parsec_comm_es.virtual_process = &vp;
     parsec_remote_dep_context.max_nodes_number = NR; parsec_remote_dep_context.max_dep_count = NOUT;
     tdm.module.outgoing_message_start = stub_oms; tdm.module.outgoing_message_pack = stub_omp;
@@ -264,7 +314,7 @@ int main(void)
         copies[k].device_private = payload[k]; copies[k].super.super.obj_reference_count = 1000;
     }
     root_task.task_class = &tc; root_task.taskpool = &tp; succ_task.task_class = &tc_succ; succ_task.taskpool = &tp;
-    parsec_ce.pack_size = stub_pack_size; parsec_ce.pack = stub_pack; parsec_ce.send_am = stub_send_am;
+    parsec_ce.pack_size = stub_pack_size; parsec_ce.pack = stub_pack;
 #if SHORT == 0
     parsec_param_short_limit = 0;
 #endif
@@ -322,7 +372,7 @@ int main(void)
         /* receiver: remote_dep_mpi_save_activate_cb up to remote_dep_get_datatypes */
         cur = me; ctx.my_rank = me;
         fresh_deps();
-        memset(&RD.msg, 0, sizeof(RD.msg)); RD.msg.output_mask = rx_omask[rl]; RD.msg.taskpool_id = rx_tpid[rl];
+        RD.msg = zero_msg; RD.msg.output_mask = rx_omask[rl]; RD.msg.taskpool_id = rx_tpid[rl];
         RD.msg.task_class_id = (uint16_t)rx_tcid[rl]; RD.from = rx_from[rl];
         uint32_t eager_words[NOUT + 1]; eager_words[0] = rx_nsz[rl];
         for (int i = 0; i < NOUT; i++) eager_words[1 + i] = rx_sz[rl][i];
